@@ -153,6 +153,16 @@ static inline uint64_t pattern_sample(const Pattern & p, const DType & dt, int64
             default: return r & m;
         }
     }
+    if (p.kind == "spike") {
+        // constant blocks with, in some of them, one deviating sample at the first / last / middle position of the block:
+        // a block that is constant "almost everywhere" must not be treated as constant
+        int64_t bl = p.p1 > 0 ? p.p1 : 64;
+        uint64_t c0 = (p.seed >> 8) & m;
+        uint64_t rb = mix64(p.seed ^ 0x5b1e, (uint64_t) (k / bl));
+        if (rb % 3 == 0) return c0;
+        int64_t pos = (rb >> 8) % 3 == 0 ? 0 : (rb >> 8) % 3 == 1 ? bl - 1 : bl / 2;
+        return (k % bl) == pos ? ((c0 + 1) & m) : c0;
+    }
     if (p.kind == "extremes") { switch (r % 4) { case 0: return 0; case 1: return m; case 2: return (m >> 1); default: return (m >> 1) + 1; } }
     if (p.kind == "small") return (r % 3) & m;
     return r & m;  // random, rawbits, nan_sprinkled (integers have no NaN), offset
